@@ -83,12 +83,22 @@ Fixpoint collect {A} (l : list (mres A)) : mres (list A) :=
   | MErr c :: _ => MErr c
   | MOk a :: t => match collect t with MOk r => MOk (a :: r) | MErr c => MErr c end
   end.
-Definition mu_fisher_total (eps : F) (m : nat) (items : list (F * vec * mat)) : mres mat :=
+(* the accumulator is allocated as  zeros((m, m))  with m = prob_dists[0].shape[0] (NOT the number of variables nv) and the
+   nv x nv matrices are added in place: fine when nv = m, numpy broadcasting when nv = 1, ValueError (7) otherwise.
+   Returns (size, matrix). *)
+Definition mu_fisher_total (eps : F) (m nv : nat) (items : list (F * vec * mat)) : mres (nat * mat) :=
   if existsb (fun it => let '(w, _, _) := it in flt w 0) items then MErr 6 else
   match collect (map (fun it => let '(_, p, G) := it in mu_fisher eps m m p G) items) with
   | MErr c => MErr c
-  | MOk Fs => MOk (wsum_mats (combine (map (fun it => let '(w, _, _) := it in w) items) Fs))
+  | MOk Fs =>
+      let W := wsum_mats (combine (map (fun it => let '(w, _, _) := it in w) items) Fs) in
+      if Nat.eqb nv m then MOk (m, W)
+      else if Nat.eqb nv 1 then MOk (m, fun _ _ => W O O)
+      else match items with [] => MOk (m, W) | _ => MErr 7 end
   end.
+(* what the docstring promises: sum_j w_j F_j  (nv x nv) *)
+Definition fisher_total_def (eps : F) (m : nat) (items : list (F * vec * mat)) : mat :=
+  wsum_mats (map (fun it => let '(w, p, G) := it in (w, fisher_core m (replace_prob_dist eps m p) G)) items).
 
 (* calc_se(xs, ys) = sum_k |x_k - y_k|^2 ;  calc_mse_prob_dists = (mean, std ddof=1) of a list of se values
    (the model returns the VARIANCE, the square of the returned std) *)
